@@ -125,8 +125,9 @@ Definition impl_cmp_scalar (cmp : V -> V -> bool) (A : sparse V) (c : V) : spars
 Definition impl_cmp (cmp : V -> V -> bool) (A B : sparse V) : sparse V :=
   let subs1 := filter (fun i => cmp (den_sp v0 A i) v0) (rows_diff (ssubs A) (ssubs B)) in
   let subs2 := filter (fun i => cmp v0 (den_sp v0 B i)) (rows_diff (ssubs B) (ssubs A)) in
-  let subs3 := filter (fun i => cmp (den_sp v0 A i) (den_sp v0 B i)) (rows_inter (ssubs A) (ssubs B)) in
-  let subs4 := if cmp v0 v0 then rows_inter (zero_subs A) (zero_subs B) else [] in
+  (* tt_intersect_rows lists the common rows in the order of its SECOND argument *)
+  let subs3 := filter (fun i => cmp (den_sp v0 A i) (den_sp v0 B i)) (rows_inter (ssubs B) (ssubs A)) in
+  let subs4 := if cmp v0 v0 then rows_inter (zero_subs B) (zero_subs A) else [] in
   sp_const (sshape A) (subs1 ++ subs2 ++ subs3 ++ subs4) one.
 (* comparison with a dense tensor, _compare case 2b *)
 Definition impl_cmp_dense (cmp : V -> V -> bool) (A : sparse V) (T : dense V) : sparse V :=
